@@ -32,7 +32,7 @@ def get_use_tree(svg, node, font_size):
         url = parsed_url.geturl()
         try:
             bytestring_svg = svg.url_fetcher(url)
-            use_svg = SVG(bytestring_svg, url)
+            use_svg = SVG(bytestring_svg, url, svg.url_fetcher)
         except Exception:
             return
         else:
